@@ -146,6 +146,10 @@ func hostileStrings() []string {
 	for _, b := range base[:len(base)/2] {
 		out = append(out, "class Foo\n  def bar(a)\n    "+b)
 	}
+	// runes with special roles in lexers, at statement start / end / in operands
+	for _, r := range []string{"\x01", "\x07", "\x1a", "\x1b", "\x7f", "\u0085", "\u009b", "\u00a0", "\u200b", "\u2028", "\u3000", "\ufeff", "\uff15", "\u0663", "\u0969", "\u00b2", "\U0001f600", "\u0301"} {
+		out = append(out, "x = 1\n"+r+"\ndbtp x\n", r+"x = 1\ndbtp x\n", "x = "+r+"\ndbtp x\n", "x = 1"+r+"\ndbtp x\n", "x = 1 +"+r+"\n", "def f"+r+"(a)\nend\n", "x."+r+"\n")
+	}
 	// deep nesting and long lines
 	out = append(out,
 		strings.Repeat("(", 3000), strings.Repeat("[", 300), strings.Repeat("{", 3000),
